@@ -180,7 +180,7 @@ func (eb ExposureBias) MarshalText() (text []byte, err error) {
 // UnmarshalText implements the TextUnmarshaler interface that is
 // used by encoding/json
 func (eb *ExposureBias) UnmarshalText(text []byte) (err error) {
-	if text[0] == '0' {
+	if len(text) == 0 || text[0] == '0' {
 		return
 	}
 	for i := 0; i < len(text); i++ {
